@@ -32,7 +32,7 @@ ASSUMPTIONS = [
 ]
 SHARDS = {"quick": 16, "thorough": 16}
 TIMEOUT = {"quick": 900, "thorough": 7200}
-MIN_CASES = {"quick": 3000, "thorough": 60000}
+MIN_CASES = {"quick": 3000, "thorough": 12000}
 REQUIRED_COUNTERS = ["ip_reads_judged", "ip_writes_judged", "notifications_checked", "malformed_entries_skipped", "global_status_applied", "coap_reads_judged", "coap_writes_judged", "ble_writes_judged"]
 BLE_BUILT = True
 COAP_BUILT = True
@@ -44,7 +44,7 @@ MALFORMED = [True, 5, None, "x", {"iid": 9, "value": 1}, {"aid": 1, "value": 1},
 
 
 def status_vectors(n, rng, quick):
-    if n <= 2:
+    if n <= 2 or (n == 3 and not quick):
         yield from itertools.product(STATUSES, repeat=n)
         return
     # covering sample: every status in every position + random
@@ -250,7 +250,7 @@ async def ip_part(ctx) -> None:
                                  sample={"transport": "ip", "op": "write", "writes": writes, "reply_code": code, "reply": doc}, kind="ip-write")
                         await case.write(writes, code, doc, script, {"t": "ip", "op": "write", "writes": writes, "code": code, "doc": json.dumps(doc)})
         # request-wide status x full / partial / empty lists, malformed / duplicated / missing entries
-        for k in range(ctx.pick(600, 8000)):
+        for k in range(ctx.pick(600, 80000)):
             idx += 1
             if not ctx.mine(idx):
                 continue
